@@ -57,8 +57,11 @@ Record dcfg := {
   c_qos : bool;                (* qosMgr set *)
   c_nat : bool;                (* natMgr set *)
   c_natcap : N;                (* total NAT port blocks *)
-  c_cache : bool               (* loader has its maps (kernel BPF usable) *)
+  c_cache : bool;              (* loader has its maps (kernel BPF usable) *)
+  c_full : list N              (* fault injection: kernel maps that are full, so that every Put of a new key fails:
+                                  1 subscriber_pools 2 circuit_id_map 3 circuit_id_subscribers 4 qos_egress 5 qos_ingress 6 subscriber_nat *)
 }.
+Definition full (c : dcfg) (k : N) : bool := existsb (N.eqb k) (c_full c).
 
 Record lease := { l_ip : N; l_cid : N; l_sid : N; l_ttl : Z }.   (* l_sid: 0 = none *)
 
@@ -69,7 +72,9 @@ Record dst := {
   leases : amap lease;         (* Server.leases: mac -> lease *)
   bycid : amap (N * lease);    (* Server.leasesByCircuitID: cid -> (mac of the lease object, lease) *)
   nat : list N;                (* nat.Manager.allocations / subscriber_nat keys: private ip *)
-  qos : list N;                (* qos.Manager.subscribers / qos_egress+qos_ingress keys: ip *)
+  qos : list N;                (* qos_egress keys: ip *)
+  qosi : list N;               (* qos_ingress keys *)
+  qost : list N;               (* qos.Manager.subscribers (tracked only after both Puts succeeded) *)
   cmac : amap N;               (* subscriber_pools: mac -> ip *)
   chash : amap N;              (* circuit_id_map: hash(cid) -> mac   (keyed by cid: hash assumed injective) *)
   csub : amap N;               (* circuit_id_subscribers: key32(cid) -> ip *)
@@ -80,7 +85,7 @@ Record dst := {
 }.
 
 Definition dinit (c : dcfg) : dst :=
-  {| avail := c_avail0 c; alloc := []; unavail := []; leases := []; bycid := []; nat := []; qos := [];
+  {| avail := c_avail0 c; alloc := []; unavail := []; leases := []; bycid := []; nat := []; qos := []; qosi := []; qost := [];
      cmac := []; chash := []; csub := []; cvlan := []; nsid := 0; starts := []; stops := [] |}.
 
 Inductive dop :=
@@ -116,13 +121,13 @@ Definition pool_allocate (s : dst) (mac : N) : option (N * dst) :=
             | [] => None
             | ip :: tl =>
                 Some (ip, {| avail := tl; alloc := aput mac ip (alloc s); unavail := unavail s; leases := leases s;
-                             bycid := bycid s; nat := nat s; qos := qos s; cmac := cmac s; chash := chash s;
+                             bycid := bycid s; nat := nat s; qos := qos s; qosi := qosi s; qost := qost s; cmac := cmac s; chash := chash s;
                              csub := csub s; cvlan := cvlan s; nsid := nsid s; starts := starts s; stops := stops s |})
             end
   end.
 
 Definition set_pool (s : dst) (av : list N) (al : amap N) (un : list N) : dst :=
-  {| avail := av; alloc := al; unavail := un; leases := leases s; bycid := bycid s; nat := nat s; qos := qos s;
+  {| avail := av; alloc := al; unavail := un; leases := leases s; bycid := bycid s; nat := nat s; qos := qos s; qosi := qosi s; qost := qost s;
      cmac := cmac s; chash := chash s; csub := csub s; cvlan := cvlan s; nsid := nsid s;
      starts := starts s; stops := stops s |}.
 
@@ -156,7 +161,7 @@ Definition pool_mark (s : dst) (ip : N) : dst :=
 Definition drop_lease (s : dst) (mac : N) (l : lease) : dst :=
   {| avail := avail s; alloc := alloc s; unavail := unavail s; leases := adel mac (leases s);
      bycid := if l_cid l =? 0 then bycid s else adel (l_cid l) (bycid s);
-     nat := nat s; qos := qos s; cmac := cmac s; chash := chash s; csub := csub s; cvlan := cvlan s;
+     nat := nat s; qos := qos s; qosi := qosi s; qost := qost s; cmac := cmac s; chash := chash s; csub := csub s; cvlan := cvlan s;
      nsid := nsid s; starts := starts s; stops := stops s |}.
 
 (* what handleRelease does besides the lease table and the pool: Accounting-Stop, QoS, NAT, caches.
@@ -165,7 +170,10 @@ Definition release_rest (c : dcfg) (s : dst) (mac : N) (l : lease) : dst * list 
   let stop := c_radius c && negb (l_sid l =? 0) in
   ({| avail := avail s; alloc := alloc s; unavail := unavail s; leases := leases s; bycid := bycid s;
       nat := if c_nat c then sdel (l_ip l) (nat s) else nat s;
+      (* RemoveSubscriberQoS deletes both kernel entries and the tracking entry, tracked or not *)
       qos := if c_qos c then sdel (l_ip l) (qos s) else qos s;
+      qosi := if c_qos c then sdel (l_ip l) (qosi s) else qosi s;
+      qost := if c_qos c then sdel (l_ip l) (qost s) else qost s;
       cmac := adel mac (cmac s);
       chash := if l_cid l =? 0 then chash s else adel (l_cid l) (chash s);
       csub := if l_cid l =? 0 then csub s else adel (l_cid l) (csub s);
@@ -194,7 +202,7 @@ Definition dheld (s : dst) (e : dsess) : list res :=
   (if ahas (se_mac e) (alloc s) || negb (smem (se_ip e) (avail s) || smem (se_ip e) (unavail s))
    then [RAddr (se_ip e)] else []) ++
   (if smem (se_ip e) (nat s) then [RNat (se_ip e)] else []) ++
-  (if smem (se_ip e) (qos s) then [RQos (se_ip e)] else []) ++
+  (if smem (se_ip e) (qos s) || smem (se_ip e) (qosi s) then [RQos (se_ip e)] else []) ++
   (if ahas (se_mac e) (cmac s) then [RCacheMac (se_mac e)] else []) ++
   (if negb (se_cid e =? 0) && ahas (se_cid e) (chash s) then [RCacheCid (se_cid e)] else []) ++
   (if negb (se_cid e =? 0) && ahas (se_cid e) (csub s) then [RCacheCidSub (se_cid e)] else []) ++
@@ -238,15 +246,28 @@ Definition dstep (c : dcfg) (s : dst) (o : dop) : dst * (N * N * list (N * N)) *
         let sid := if isnew then (if newsid then nsid s1 + 1 else 0)
                    else match ex with Some e => l_sid e | None => 0 end in
         let l := {| l_ip := ip; l_cid := cid'; l_sid := sid; l_ttl := c_lease c |} in
-        let natok := c_nat c && isnew && (smem ip (nat s1) || (N.of_nat (length (nat s1)) <? c_natcap c)) in
+        (* AllocateNAT: the kernel Put comes before the bookkeeping; a failed Put allocates nothing *)
+        let natok := c_nat c && isnew && negb (full c 6 && negb (smem ip (nat s1))) &&
+                     (smem ip (nat s1) || (N.of_nat (length (nat s1)) <? c_natcap c)) in
+        (* SetSubscriberQoS: egress Put, then ingress Put, tracked only when both succeeded *)
+        let eg_ok := c_qos c && isnew && negb (full c 4) in
+        let in_ok := eg_ok && negb (full c 5) in
+        (* the client moved to another circuit: the old circuit's index and cache entries go *)
+        let oldcid := if isnew then 0 else match ex with Some e => l_cid e | None => 0 end in
+        let moved := negb (oldcid =? 0) && negb (oldcid =? cid') in
+        let bycid0 := if moved then adel oldcid (bycid s1) else bycid s1 in
+        let chash0 := if moved then adel oldcid (chash s1) else chash s1 in
+        let csub0 := if moved then adel oldcid (csub s1) else csub s1 in
         let s2 := {| avail := avail s1; alloc := alloc s1; unavail := unavail s1;
                      leases := aput mac l (leases s1);
-                     bycid := if cid' =? 0 then bycid s1 else aput cid' (mac, l) (bycid s1);
+                     bycid := if cid' =? 0 then bycid0 else aput cid' (mac, l) bycid0;
                      nat := if natok then sadd ip (nat s1) else nat s1;
-                     qos := if c_qos c && isnew then sadd ip (qos s1) else qos s1;
-                     cmac := if c_cache c then aput mac ip (cmac s1) else cmac s1;
-                     chash := if c_cache c && negb (cid' =? 0) then aput cid' mac (chash s1) else chash s1;
-                     csub := if c_cache c && negb (cid' =? 0) then aput cid' ip (csub s1) else csub s1;
+                     qos := if eg_ok then sadd ip (qos s1) else qos s1;
+                     qosi := if in_ok then sadd ip (qosi s1) else qosi s1;
+                     qost := if in_ok then sadd ip (qost s1) else qost s1;
+                     cmac := if c_cache c && negb (full c 1) then aput mac ip (cmac s1) else cmac s1;
+                     chash := if c_cache c && negb (cid' =? 0) && negb (full c 2) then aput cid' mac chash0 else chash0;
+                     csub := if c_cache c && negb (cid' =? 0) && negb (full c 3) then aput cid' ip csub0 else csub0;
                      cvlan := cvlan s1;
                      nsid := if isnew && newsid then nsid s1 + 1 else nsid s1;
                      starts := if isnew && c_radius c then sid :: starts s1 else starts s1;
@@ -290,7 +311,7 @@ Definition dstep (c : dcfg) (s : dst) (o : dop) : dst * (N * N * list (N * N)) *
       ({| avail := avail s; alloc := alloc s; unavail := unavail s;
           leases := map (fun p => (fst p, age_lease d (snd p))) (leases s);
           bycid := map (fun p => (fst p, (fst (snd p), age_lease d (snd (snd p))))) (bycid s);
-          nat := nat s; qos := qos s; cmac := cmac s; chash := chash s; csub := csub s; cvlan := cvlan s;
+          nat := nat s; qos := qos s; qosi := qosi s; qost := qost s; cmac := cmac s; chash := chash s; csub := csub s; cvlan := cvlan s;
           nsid := nsid s; starts := starts s; stops := stops s |}, (0, 0, []), [])
   | Tick order =>
       let '(s', ev, mk) := fold_left (expire_one c) (order ++ map fst (leases s)) (s, [], []) in
@@ -302,24 +323,24 @@ Record dsnap := {
   sn_alloc : list (N * N); sn_avail : list N; sn_unavail : list N;
   sn_leases : list (N * (N * N * bool));     (* mac -> (ip, cid, expired) *)
   sn_bycid : list (N * (N * N));             (* cid -> (mac, ip) *)
-  sn_nat : list N; sn_qos : list N;
+  sn_nat : list N; sn_qos : list N; sn_qosi : list N; sn_qost : list N;
   sn_cmac : list (N * N); sn_chash : list (N * N); sn_csub : list (N * N); sn_cvlan : list (N * N) }.
 
 Record dout := { o_reply : N; o_rip : N; o_acct : list (N * N); o_snap : dsnap }.
 
 (* positional constructor for the harness-written case files *)
 Definition DO (reply rip : N) (acct : list (N * N)) (al : list (N * N)) (av un : list N)
-  (ls : list (N * (N * N * bool))) (bc : list (N * (N * N))) (nt qs : list N)
+  (ls : list (N * (N * N * bool))) (bc : list (N * (N * N))) (nt qs qi qt : list N)
   (cm ch cs cv : list (N * N)) : dout :=
   {| o_reply := reply; o_rip := rip; o_acct := acct;
      o_snap := {| sn_alloc := al; sn_avail := av; sn_unavail := un; sn_leases := ls; sn_bycid := bc;
-                  sn_nat := nt; sn_qos := qs; sn_cmac := cm; sn_chash := ch; sn_csub := cs; sn_cvlan := cv |} |}.
+                  sn_nat := nt; sn_qos := qs; sn_qosi := qi; sn_qost := qt; sn_cmac := cm; sn_chash := ch; sn_csub := cs; sn_cvlan := cv |} |}.
 
 Definition dsnap_of (s : dst) : dsnap :=
   {| sn_alloc := alloc s; sn_avail := avail s; sn_unavail := unavail s;
      sn_leases := map (fun p => (fst p, (l_ip (snd p), l_cid (snd p), (l_ttl (snd p) <? 0)%Z))) (leases s);
      sn_bycid := map (fun p => (fst p, (fst (snd p), l_ip (snd (snd p))))) (bycid s);
-     sn_nat := nat s; sn_qos := qos s; sn_cmac := cmac s; sn_chash := chash s; sn_csub := csub s;
+     sn_nat := nat s; sn_qos := qos s; sn_qosi := qosi s; sn_qost := qost s; sn_cmac := cmac s; sn_chash := chash s; sn_csub := csub s;
      sn_cvlan := cvlan s |}.
 
 Fixpoint isort_ev (l : list (N * N)) : list (N * N) :=
@@ -350,6 +371,7 @@ Definition dsnap_eqb (a b : dsnap) : bool :=
            (sn_leases a) (sn_leases b) &&
   list_eqb (fun x y => (fst x =? fst y) && nn_eqb (snd x) (snd y)) (sn_bycid a) (sn_bycid b) &&
   list_eqb N.eqb (sn_nat a) (sn_nat b) && list_eqb N.eqb (sn_qos a) (sn_qos b) &&
+  list_eqb N.eqb (sn_qosi a) (sn_qosi b) && list_eqb N.eqb (sn_qost a) (sn_qost b) &&
   list_eqb nn_eqb (sn_cmac a) (sn_cmac b) && list_eqb nn_eqb (sn_chash a) (sn_chash b) &&
   list_eqb nn_eqb (sn_csub a) (sn_csub b) && list_eqb nn_eqb (sn_cvlan a) (sn_cvlan b).
 Definition dout_eqb (a b : dout) : bool :=
@@ -392,7 +414,8 @@ Inductive pop :=
 | IdleTick                           (* SessionManager.CleanupExpired(timeout): body of Server.cleanupLoop *)
 | TdPadt (inst mac : N)              (* SessionTeardown.HandleClientPADT(object, mac, id) *)
 | TdTerm (inst : N)                  (* SessionTeardown.TerminateSession(object, AdminReset, "") *)
-| TdAll (order : list N).            (* SessionTeardown.TerminateAll (maintenance / shutdown); order = Go map iteration order of the table, as instances (oracle) *)
+| TdAll (order : list N)            (* SessionTeardown.TerminateAll (maintenance / shutdown); order = Go map iteration order of the table, as instances (oracle) *)
+| POverlap (first second : pop).     (* [second] ran to completion while [first] (a teardown path) was held inside cleanup *)
 
 Definition pset (s : pst) (h : amap psess) (t m : amap N) (av : list N) (al : amap N) (st : list N) : pst :=
   {| heap := h; tbl := t; midx := m; nextid := nextid s; ninst := ninst s; pavail := av; palloc := al; pstops := st |}.
@@ -455,7 +478,7 @@ Definition pterm (c : pcfg) (acc : pst * list (N * N) * list N) (i : N) : pst * 
       (s2, ev ++ (4, ps_id x) :: ev2, mk ++ mk2)
   end.
 
-Definition pstep (c : pcfg) (s : pst) (o : pop) : pst * list (N * N) * list N :=
+Definition pstep1 (c : pcfg) (s : pst) (o : pop) : pst * list (N * N) * list N :=
   let seth (s : pst) (i : N) (x : psess) := pset s (aput i x (heap s)) (tbl s) (midx s) (pavail s) (palloc s) (pstops s) in
   match o with
   | Padr mac =>
@@ -529,6 +552,21 @@ Definition pstep (c : pcfg) (s : pst) (o : pop) : pst * list (N * N) * list N :=
   | TdAll order =>
       let live := map snd (tbl s) in
       fold_left (pterm c) (filter (fun i => smem i live) order ++ filter (fun i => negb (smem i order)) live) (s, [], [])
+  | POverlap _ _ => (s, [], [])
+  end.
+
+(* Overlapping endings of one session. cleanup holds the teardown mutex from its first to its last
+   step and every step is idempotent, so whatever the point at which the first path is held, the visible
+   outcome is the one of running the first path and then the second (a second teardown path waits for the
+   mutex and then finds the session torn down; a frame handler or the idle cleanup releases and removes
+   what cleanup releases and removes again without effect). *)
+Definition pstep (c : pcfg) (s : pst) (o : pop) : pst * list (N * N) * list N :=
+  match o with
+  | POverlap a b =>
+      let '(s1, e1, m1) := pstep1 c s a in
+      let '(s2, e2, m2) := pstep1 c s1 b in
+      (s2, e1 ++ e2, m1 ++ m2)
+  | _ => pstep1 c s o
   end.
 
 Record psnap := {
